@@ -46,7 +46,7 @@ PROPS["C06"] = dict(
          "Non-trivial: result needs >15 digits or operands differ in kind or sign (arith/cmp), negative operand or long operand (divmod), base prefix/multiplier/underscore/exponent (literal), fractional or negative argument (builtin).",
     assumptions=["correct rounding accepts either tie-breaking rule (|got-exact| <= half a unit of the 34th digit)",
                  "math.Pow is only required to be within 2 units of the 34th digit",
-                 "known finding F8 (integer results/operands beyond 34 digits are rounded) is excluded from generation and replayed as witness"],
+                 "numeric builtins other than MultipleOf are only given operands of at most 34 digits (they work in the 34-digit decimal context by documentation); F8, F36, F37, F38 are repaired and their witnesses are replayed as regression inputs"],
 )
 
 PROPS["C09"] = dict(
@@ -172,8 +172,8 @@ PROPS["C02"] = dict(
     technique="rapid generation (corpus mutation, mutated generated programs, wild semantic fragments: cycles, structural cycles, conflicts, comprehensions, builtins) with a crash/hang/repeatability invariant; journalled cases attribute Go fatal errors",
     level_text="exploration: every embedded corpus source unmodified, plus generated inputs, through parse -> build -> Validate -> Validate(Concrete) -> Syntax(Final/default/All+Docs)+format -> MarshalJSON -> yaml.Encode, twice in one process (fresh contexts) and for a subsample in another process; a panic, a Go fatal error (stack overflow, deadlock) or differing transcripts is a violation; exceeding the time bound is recorded as inconclusive.",
     level_note="trusted: the journal written before each case attributes a process death to its input; 20 s per input is taken as 'not bounded' only in the sense of inconclusive (listed in evidence, never a violation)",
-    rule="input = corpus file with 0-3 byte/token mutations | witness-first generated program (tier T2) with 0-2 mutations | 1-4 wild fragments (reference cycles, structural cycles, conflicts, defaults, comprehensions, builtins, closedness) with 0-1 mutations | operator/builtin templates with hostile constants (2^31, 2^63, 2^64, 50-digit integers, 1e400, ...) | malformed string literals built from openers and hostile pieces (invalid UTF-8, CR, escapes, quotes at line starts). history: 1-4 generated inputs evaluated in sequence, then five fixed sentinel programs must still give their original transcript (no state leaks between evaluations in one process). Non-trivial = the input parses and reaches the evaluator; distinct = input text.",
-    assumptions=["inputs containing a required field marker (!:) are excluded: known crasher F1"],
+    rule="input = corpus file with 0-3 byte/token mutations | witness-first generated program (tier T2) with 0-2 mutations | 1-4 wild fragments (reference cycles, structural cycles, conflicts, defaults, comprehensions, builtins, closedness) with 0-1 mutations | operator/builtin templates with hostile constants (2^31, 2^63, 2^64, 50-digit integers, 1e400, ...) | malformed string literals built from openers and hostile pieces (invalid UTF-8, CR, escapes, quotes at line starts) | declaration soup: a struct body of 2-5 declarations drawn from 60 forms (regular/optional/required/hidden/definition fields, true/false/unresolved comprehensions, let, patterns, ellipsis, embedded scalars, bounds, validators, disjunctions, lists), optionally unified with another operand, placed as a field, behind a reference, in a definition or as a list element type. history: 1-4 generated inputs evaluated in sequence, then five fixed sentinel programs must still give their original transcript (no state leaks between evaluations in one process). Non-trivial = the input parses and reaches the evaluator; distinct = input text.",
+    assumptions=["no input class is excluded (the former exclusion of required fields ended with the repair of F1)"],
 )
 
 PROPS["C15"] = dict(
@@ -243,12 +243,13 @@ PROPS["C19"] = dict(
     timeout_quick=1500,
     subs=[
         dict(name="concurrent", test="TestConcurrent", quick=250, thorough=15000, shards=16),
+        dict(name="immutable", test="TestImmutable", quick=1500, thorough=60000, shards=8),
     ],
     technique="rapid-generated programs and call multisets executed by 2-16 goroutines on one shared value under the Go race detector (halt_on_error), each result compared with a sequential baseline on a separately compiled copy; canonical form of the shared value before/after",
-    level_text="exploration: witness-first programs (tier T2 with all features) shared in the 'deeply pre-walked' state, 28 operations (lookups, iteration, Walk, Unify, FillPath, Validate x3, Default, Eval, Syntax x3, Decode x2, MarshalJSON, yaml.Encode, Kind, Allows, Subsume, Equals, Expr, ReferencePath, Path/Pos/Doc, scalar accessors), start barrier and Gosched skew; a quarter of the cases use an independent context per goroutine instead.",
+    level_text="exploration: witness-first programs (tier T2 with all features) shared in the 'deeply pre-walked' state or in the 'walked' state (every node validated and iterated, no value-deriving method called yet), 28 operations (lookups, iteration, Walk, Unify, FillPath, Validate x3, Default, Eval, Syntax x3, Decode x2, MarshalJSON, yaml.Encode, Kind, Allows, Subsume, Equals, Expr, ReferencePath, Path/Pos/Doc, scalar accessors), start barrier and Gosched skew; a sixth of the cases use an independent context per goroutine instead; a third are 'burst' cases: 1-12 rounds in which all goroutines, released together by a spin barrier, run operations whose first use with a new name touches process-wide state (FillPath/LookupPath/Compile with a never-seen label, Decode into a never-seen Go struct type whose field names match case-insensitively). Sub-check immutable (sequential): a fully evaluated value is fingerprinted (conjuncts, arcs, base value of every finalized vertex) before any cue.Value method is called, every operation then runs once on one goroutine, and the fingerprint must be unchanged.",
     level_note="trusted: the Go race detector's happens-before analysis (a race report kills the process and the journalled case is the replay); the Go scheduler is not owned, so a race that needs one specific interleaving may be missed in a given run",
-    rule="case = program + state + per-goroutine call sequences (1-6 calls from 28 operations) + skew; checked: no race report, every call returns what the same call returns alone, canon(shared value) unchanged. Non-trivial = at least two goroutines executed calls that finalise or derive values (Unify, FillPath, Validate, Default, Eval, Syntax, Decode).",
-    assumptions=["the shared value is deeply pre-walked (Fields(All), List, Default, three Syntax profiles and MarshalJSON on every sub-value) before it is shared: sharing a fresh or merely validated value races on the unchanged tree (known finding F19, replayed as witness)",
+    rule="concurrent: case = program + state {deep, walked} + mode {shared, contexts, burst} + per-goroutine call sequences (1-6 calls from 28 operations) + skew; checked: no race report, every call returns what the same call returns alone (the baseline uses different fresh names than the concurrent phase, so it warms up nothing), canon(shared value) unchanged. Non-trivial = at least two goroutines executed calls that finalise or derive values (Unify, FillPath, Validate, Default, Eval, Syntax, Decode). immutable: case = program + one sequence of 1-10 operations (+ the four first-use operations); non-trivial = more than 3 finalized vertices and at least 3 distinct operations.",
+    assumptions=["the shared value is pre-walked before it is shared, either deeply (Fields(All), List, Default, three Syntax profiles and MarshalJSON on every sub-value) or by validation and iteration only: sharing a fresh or merely validated value races on the unchanged tree (known finding F19, replayed as witness); first-use mutations of such values are looked for sequentially by the immutable sub-check instead",
                  "programs whose evaluation contains a fatal error are skipped (they still race after the deep pre-walk)"],
 )
 
@@ -279,21 +280,23 @@ PROPS["C12"] = dict(
     level_note="trusted: the independent decoders, dgen's CUE renderer, process exit codes; each case runs 4-6 cue processes in a scratch directory",
     rule="case = tree x encoding {json,yaml,toml,cue} x flags {--out | -o file, --escape, -e path, package vs file arguments, 1 or 2 files} x {ok, non-concrete, conflicting}. Non-trivial = a non-default flag, a non-ASCII string, a key that is not a plain identifier, or an object inside a list.",
     assumptions=["YAML strings covered by C11's known findings (F10 F11 F20 F34a F47 F48) are excluded here too when the target encoding is YAML",
-                 "TOML: null values are never generated in the gated search (known finding F12: silently dropped); integers within int64"],
+                 "TOML: integers within int64; a null value must make the TOML export fail (F12, repaired)",
+                 "JSON: strings containing U+FEFF are excluded when the target encoding is JSON (known finding F23: cue import rejects the file cue export wrote)"],
 )
 
 PROPS["C13"] = dict(
     pkg="c13",
     subs=[
-        dict(name="schema", test="TestSchema", quick=1500, thorough=60000, shards=16),
+        dict(name="schema", test="TestSchema", quick=6000, thorough=120000, shards=16),
     ],
     technique="rapid-generated composed schemas and instances; differential against an own JSON Schema validator for the keyword subset, itself cross-checked per case by python jsonschema (Draft202012Validator) when available",
-    level_text="exploration: schemas composed to depth 2-3 from type (single/list), enum, const, numeric and string bounds, multipleOf, pattern, properties, required, additionalProperties, patternProperties, min/maxProperties, items, min/maxItems, uniqueItems, contains, allOf/anyOf/oneOf/not, $defs/$ref; 8 instances per schema biased to the schemas' constants; a verdict counts only when the Go validator and python jsonschema agree.",
+    level_text="exploration: schemas composed to depth 2-3 from type (single/list), enum and const (scalars and composite values: objects inside arrays, nesting, empties), numeric bounds (small, and at the edges of int64/2^53/1e19) and string bounds, multipleOf, pattern, properties, required, additionalProperties, patternProperties, min/maxProperties, items, min/maxItems, uniqueItems, contains, allOf/anyOf/oneOf/not (including 3-4 type-only branches), $defs/$ref; 8 instances per schema, a third of them a const/enum value or bound of the schema or a near miss of it (one member added, removed or changed, an element appended, a number moved by one); a verdict counts only when the Go validator and python jsonschema agree.",
     level_note="trusted: the ~300-line Go validator (validator.go) and python jsonschema 4.26 as its cross-check; a disagreement between the two is my bug and the case is skipped (counted), never reported",
     rule="schema accepted by jsonschema.Extract (else counted as rejected at import, which the property allows): for each instance, inst & CUE validates as concrete <=> instance valid per the oracle; and the JSON Schema generated back from that CUE must not reject an instance the oracle accepts (Generate is documented as best-effort/permissive, so only this direction is checked). Non-trivial = schema has >= 2 keywords of which >= 1 combinator or object keyword, and the instance set contains both a valid and an invalid instance.",
     assumptions=["integral floats (1.0) are not generated: the importer distinguishes int/float where JSON Schema does not (documented in the vendored suite's skip list, finding F13)",
                  "if/then/else is not generated in the registered tier (known finding F29 family); VERIF_TIER_MAX=1 enables it",
-                 "type lists [integer, number] and required+additionalProperties:false without properties are excluded (known findings F18, F29)"],
+                 "type lists [integer, number] and required+additionalProperties:false without properties are excluded (known findings F18, F29)",
+                 "object-bearing const/enum values: not next to other keywords at the root (F70), not two of one kind in an enum (F81), not below contains (F71), not next to patternProperties (F27/F70); the regeneration direction skips schemas with a bound that float64 rounding tightens (F80)"],
 )
 
 PROPS["C05"] = dict(
